@@ -14,12 +14,54 @@ CHECKS = {
   note="Trusted: TLC, bbolt, Go runtime. Bucket handles are re-fetched per operation; keys/values non-empty; Iter compared as a set. 'Chain store behaves the same whichever backend' is covered by C02/C03 drivers running DBStore over the backends.",
   technique="TLA+ spec (KV, KVMem, KVCache) + TLC exhaustive/refinement + edge-cover replay into real backends + TLC trace validation of recorded sessions",
   ref="5 C17"),
+ "C01": dict(
+  level='model_checking',
+  text='TLC explores every submission order and batching (incl. duplicates, orphans, mixed-branch batches) of real, materialised fork trees containing every single-field block corruption class, with AddBlocks modelled step by step (header loop, weight gate, revert/apply steps, failure, rollback, flush): Linked, AllValid, MemIsTip, TipMovesOnlyIfHeavier, FailureIsNoop, WorkNeverLost, RollbackNeverFails, NeverPanics. Every transition of that graph is replayed on a real chain.Manager over DBStore (store operations, error class, best-chain index incl. entries above the tip, stored block/state records, tip state byte-equal to the independent linear replay) and randomised histories on 20-120 block trees are validated event by event by TLC.',
+  note='Trusted: go.sia.tech/core (consensus validation, ApplyBlock/ApplyHeader, accumulator membership) and the independent linear-replay ledger built only on it; TLC; the Go runtime. Tree classes (ok/badhdr/badbody/future) and the SufficientlyHeavierThan relation are computed from the real blocks and states, never assumed. Bounds: Leg M/R trees of <= 6 blocks (quick 5) in three hardfork regimes plus scripted rollback shapes, batches <= 2; Leg T random trees of 20-120 blocks.',
+  technique='TLA+ spec Chain.tla + TLC exhaustive on materialised fork trees; edge-cover replay of the TLC graph into the real Manager/DBStore with projection + property audits after every call; TLC trace validation (ChainTrace.tla) of randomised real executions',
+  ref='5 C01 / Appendix A'),
+ "C02": dict(
+  level='model_checking',
+  text="Chain.tla folds the element-level effect of every block (extracted from core's ApplyUpdate of the real blocks) exactly as db.go's applyElements/revertElements do (append / prepend / swap-remove of expiration lists, revert walking core's diffs in reverse); TLC checks LedgerSetsAlways on every reorg walk and reports the history-dependent expiration ORDER (LedgerIsFold) as a design-level counterexample. Replay compares the real buckets with the spec after every step, audits them against the independent ledger, and compares EVERY bucket of the store with a real linear twin fed the same best chain; the randomised driver does the twin comparison after every call on trees with all v1/v2 element-changing transaction kinds across the allow/require heights.",
+  note='Trusted: go.sia.tech/core (consensus validation, ApplyBlock/ApplyHeader, accumulator membership) and the independent linear-replay ledger built only on it; TLC; the Go runtime. Tree classes (ok/badhdr/badbody/future) and the SufficientlyHeavierThan relation are computed from the real blocks and states, never assumed. Bounds: Leg M/R trees of <= 6 blocks (quick 5) in three hardfork regimes plus scripted rollback shapes, batches <= 2; Leg T random trees of 20-120 blocks. Known finding C02-expiry-order (open): expiration-list order and its consequence on later states; sets, elements, supplements and proofs are compared strictly.',
+  technique='TLA+ spec Chain.tla + TLC exhaustive on materialised fork trees; edge-cover replay of the TLC graph into the real Manager/DBStore with projection + property audits after every call; TLC trace validation (ChainTrace.tla) of randomised real executions; bucket-level comparison with a linear twin',
+  ref='5 C02'),
+ "C03": dict(
+  level='model_checking',
+  text="Family durable: MidFlush after any individual apply/revert inside a reorg, EndFlush, Crash at any moment; TLC checks DurableConsistent (image linked, valid, ledger = fold of its own chain, tip is one the node had) and CommitOnlyAtBoundary. Replay forces the store's own commit at exactly the scripted points, stops the process inside AddBlocks, reopens the committed image with NewDBStore+NewManager and compares it with the spec; the driver commits after random block operations, reopens EVERY committed image of every history, audits it against the independent ledger and lets it catch up to the tip of the uninterrupted run.",
+  note="Trusted: go.sia.tech/core (consensus validation, ApplyBlock/ApplyHeader, accumulator membership) and the independent linear-replay ledger built only on it; TLC; the Go runtime. Tree classes (ok/badhdr/badbody/future) and the SufficientlyHeavierThan relation are computed from the real blocks and states, never assumed. Bounds: Leg M/R trees of <= 6 blocks (quick 5) in three hardfork regimes plus scripted rollback shapes, batches <= 2; Leg T random trees of 20-120 blocks. Commit points are produced through the chain.Store interface (DBStore.Flush right after ApplyBlock/RevertBlock, the same sequence of DB operations DBStore performs when its size/time threshold fires). MemDB images; Bolt is covered by C17's backend equivalence.",
+  technique='TLA+ spec Chain.tla + TLC exhaustive on materialised fork trees; edge-cover replay of the TLC graph into the real Manager/DBStore with projection + property audits after every call; TLC trace validation (ChainTrace.tla) of randomised real executions; crash/reopen of every committed image',
+  ref='5 C03'),
+ "C04": dict(
+  level='model_checking',
+  text='Family subs: Poll = UpdatesSince with chunk sizes {1,2,5} from every subscriber position incl. stale branches, interleaved with every submission; TLC checks Contiguous (bounded, reverts walk back parent by parent to the fork point, applies forward along the best chain, catches up when not truncated) and NotifyOnlyIfMoved/MovedImpliesNotify. Replay compares the returned block-id lists exactly; in the driver three subscribers fold the REAL updates (element diffs + UpdateElementProof) into shadow ledgers that must equal the independent ledger, with every proof verifying against the tip accumulator, whenever they catch up.',
+  note='Trusted: go.sia.tech/core (consensus validation, ApplyBlock/ApplyHeader, accumulator membership) and the independent linear-replay ledger built only on it; TLC; the Go runtime. Tree classes (ok/badhdr/badbody/future) and the SufficientlyHeavierThan relation are computed from the real blocks and states, never assumed. Bounds: Leg M/R trees of <= 6 blocks (quick 5) in three hardfork regimes plus scripted rollback shapes, batches <= 2; Leg T random trees of 20-120 blocks. Concurrent polls racing AddBlocks are serialised by Manager.mu and are exercised only sequentially here.',
+  technique='TLA+ spec Chain.tla + TLC exhaustive on materialised fork trees; edge-cover replay of the TLC graph into the real Manager/DBStore with projection + property audits after every call; TLC trace validation (ChainTrace.tla) of randomised real executions; shadow ledgers folded from the real update stream',
+  ref='5 C04'),
+ "C19": dict(
+  level='model_checking',
+  text="Family prune: Prune(h) for every height incl. beyond the tip, repeated, followed by every submission (incl. re-submission of pruned blocks) and reorgs around the boundary; TLC checks PruneOnlyOldBodies, AllValid, NeverPanics, FailureIsNoop, MinReorg. Replay and the driver compare MinReorgIndex, stored records and results with the spec; the driver runs an unpruned twin on the same submissions and requires equal tips/states unless the reorg's fork point lies below the reported minimum reorg index.",
+  note='Trusted: go.sia.tech/core (consensus validation, ApplyBlock/ApplyHeader, accumulator membership) and the independent linear-replay ledger built only on it; TLC; the Go runtime. Tree classes (ok/badhdr/badbody/future) and the SufficientlyHeavierThan relation are computed from the real blocks and states, never assumed. Bounds: Leg M/R trees of <= 6 blocks (quick 5) in three hardfork regimes plus scripted rollback shapes, batches <= 2; Leg T random trees of 20-120 blocks. Finding C19-resubmit-pruned-block was repaired (fix commit 8158710); Chain_prune_dev.cfg keeps the deviation as a model-level self-test.',
+  technique='TLA+ spec Chain.tla + TLC exhaustive on materialised fork trees; edge-cover replay of the TLC graph into the real Manager/DBStore with projection + property audits after every call; TLC trace validation (ChainTrace.tla) of randomised real executions; unpruned twin',
+  ref='5 C19'),
+ "C20": dict(
+  level='model_checking',
+  text='TLC checks the declarative bit-sequence definition of the 12-word encoding exhaustively on scaled-down instances (definitions are inverse bijections; an implementation-shaped shift/mask model refines it; named deviations are rejected). At full size TLC computes the specified result of structured and random calls which are replayed on the real codec, and every recorded call of encode/decode/SeedFromPhrase/NewSeedPhrase/KeyFromSeed (5*10^4 quick, 6*10^5 thorough: every single-bit and adjacent-two-bit entropy, every value of every word position, all 16 checksum variants, whitespace variants, 14 malformed kinds) is validated clause by clause against SeedTrace.tla.',
+  note='2^128 entropies / 2048^12 phrases are sampled, not enumerated. SHA-256, BLAKE2b, Ed25519 are uninterpreted: the checksum nibble is supplied by the harness (crypto/sha256, hashlib) and cross-checked; seeds/keys only required deterministic and injective. Hook wallet/verif_export.go (build tag verif).',
+  technique='TLA+ spec (Seed, SeedMC, SeedGen, SeedTrace) + exhaustive TLC on scaled-down instances + TLC-computed replies replayed into the real codec + TLC trace validation of recorded calls',
+  ref='5 C20'),
+ "C16": dict(
+  level='model_checking',
+  text="Form.tla models renter and host as two processes exchanging four messages with stop/cut/one-field corruption at every boundary, dial failure, broadcast failure, 8 parameter classes, 4 basis relations, confirmed/unconfirmed inputs; TLC explores all interleavings of 2 (quick) / 3 (thorough) attempts. All 2272 TLC-enumerated attempt descriptors are executed on two real nodes (real client functions, real rhp4.Server, real wallets) through the in-memory transport with a message-aware proxy; calls, outcome, both wallets' spendable sets and balances, contractor contents, a neutral pool's verdict and a mined block are compared with the spec and the statement is evaluated directly; random attempt sequences with repeated failures are validated by TLC against FormTrace.tla.",
+  note="Point of no return = host's successful broadcast; a final message lost after it counts as formed-but-unacknowledged. testutil EphemeralContractor/EphemeralWalletStore stand in for host stores; in-memory transport; one fault per attempt. Open finding C16-record-before-broadcast; three findings repaired (fix commits 6bbeb19, 2d8c5ce, 1b6d022).",
+  technique='TLA+ spec with named deviations + TLC exhaustive + replay of the full descriptor cover into real client/server/wallet code + TLC trace validation',
+  ref='5 C16'),
 }
 
 NOT_APPLICABLE = {
 }
 
-HOOK_COMMITS = []
+HOOK_COMMITS = ["cdd4f9a"]
 
 
 def main():
